@@ -442,7 +442,14 @@ impl Exec {
                 }
                 let d = self.stale_dirs[*idx % self.stale_dirs.len()];
                 let mut b = [0u8; 64];
-                let r = match act % 9 {
+                let r = match act % 14 {
+                    // the same calls with a name that is not a valid 8.3 name: the handle is still
+                    // what must be refused
+                    9 => vm.open_dir(Fl::Raw, d, Nm::Str("A*B")).map(|_| ()),
+                    10 => vm.find(Fl::Raw, d, Nm::Str("TOOLONGNAME.TXT")).map(|_| ()),
+                    11 => vm.open_file(Fl::Raw, d, Nm::Str("A B"), Mode::ReadWriteCreateOrAppend).map(|_| ()),
+                    12 => vm.delete(Fl::Raw, d, Nm::Str("A<B")),
+                    13 => vm.mkdir(Fl::Raw, d, Nm::Str("X.Y.Z")),
                     0 => vm.open_dir(Fl::Raw, d, Nm::Str("SUB0")).map(|h| {
                         self.issued.push(('d', hnum(&h)));
                         let n = self.dirs.len();
@@ -510,6 +517,13 @@ impl Exec {
                     p("delete_file_in_dir", vm.delete(Fl::Raw, d, Nm::Str("PRE0.DAT")));
                     p("Directory::delete_file_in_dir", vm.delete(Fl::Wrap, d, Nm::Str("PRE1.DAT")));
                     p("make_dir_in_dir", vm.mkdir(Fl::Raw, d, Nm::Str("REENTDIR")));
+                    // ... and with names that are not valid 8.3 names (the lock comes first)
+                    p("open_dir(invalid name)", vm.open_dir(Fl::Raw, d, Nm::Str("A*B")).map(|_| ()));
+                    p("find_directory_entry(invalid name)", vm.find(Fl::Raw, d, Nm::Str("TOOLONGNAME.TXT")).map(|_| ()));
+                    p("open_file_in_dir(invalid name)", vm.open_file(Fl::Raw, d, Nm::Str("A B"), Mode::ReadWriteCreate).map(|_| ()));
+                    p("delete_file_in_dir(invalid name)", vm.delete(Fl::Raw, d, Nm::Str("A<B")));
+                    p("Directory::delete_file_in_dir(invalid name)", vm.delete(Fl::Wrap, d, Nm::Str("A<B")));
+                    p("make_dir_in_dir(invalid name)", vm.mkdir(Fl::Raw, d, Nm::Str("X.Y.Z")));
                     p("Directory::make_dir_in_dir", vm.mkdir(Fl::Wrap, d, Nm::Str("REENTDI2")));
                     if let Some(v) = v0 {
                         p("open_root_dir", vm.open_root_dir(Fl::Raw, v).map(|_| ()));
